@@ -49,6 +49,12 @@ func (env *Env) bindResults(fn *ssa.Function, vals []Val, resVals []ssa.Value, f
 				t = Term{strconv.Itoa(env.fc.e.funcTag(fnKey(cl.Fn))), SInt}
 			} else if _, isPE := vals[i].(*PtrSliceElem); isPE && fr != nil && i < len(resVals) {
 				t = fr.term(resVals[i])
+			} else if va, isVA := vals[i].(*VarArgSlice); isVA {
+				lit, ok := env.fc.sliceLiteral(va, sig.Results().At(i).Type())
+				if !ok {
+					continue
+				}
+				t = lit
 			} else {
 				continue
 			}
@@ -455,6 +461,9 @@ func (env *Env) ghostSel(base CVal, name string) (CVal, error) {
 			case "closed":
 				a := fc.heapGet(env.state(), "CC", arr(SInt, SInt))
 				return CVal{Term{sel(a.S, base.T.S), SInt}, types.Typ[types.Int]}, nil
+			case "rcvd": // number of elements of the log already received (fork/join model only)
+				a := fc.heapGet(env.state(), "CR", arr(SInt, SInt))
+				return CVal{Term{sel(a.S, base.T.S), SInt}, types.Typ[types.Int]}, nil
 			}
 			return CVal{}, fmt.Errorf("channel ghost .#%s", name)
 		}
@@ -717,6 +726,13 @@ func (env *Env) call(x *ECall) (CVal, error) {
 	case "fn": // fn(name): tag of a function in the current package
 		if id, ok := x.Args[0].(*EIdent); ok {
 			return CVal{Term{strconv.Itoa(fc.e.funcTag(env.pkg + "." + id.Name)), SInt}, nil}, nil
+		}
+		if lit, ok := x.Args[0].(*ELit); ok {
+			// fn("(*T).M$1"): methods and closures, by the name their contract is keyed with
+			if ct := fc.e.resolveFuncKey(lit.Val, env.pkg); ct != nil {
+				return CVal{Term{strconv.Itoa(fc.e.funcTag(ct.Key)), SInt}, nil}, nil
+			}
+			return CVal{}, fmt.Errorf("fn(%q): no function under contract with that name", lit.Val)
 		}
 	case "typeis": // typeis(x, "T"): interface value x has dynamic type T
 		if len(x.Args) != 2 {
@@ -1118,6 +1134,8 @@ func (env *Env) evalLocs(e Expr) ([]loc, error) {
 						return []loc{{"CL", arr(SInt, SInt), base.T, ""}, {"CO$" + sanitize(es), arr(SInt, arr(SInt, es)), base.T, ""}}, nil
 					case "closed":
 						return []loc{{"CC", arr(SInt, SInt), base.T, ""}}, nil
+					case "rcvd":
+						return []loc{{"CR", arr(SInt, SInt), base.T, ""}}, nil
 					}
 				}
 				if p, ok := base.GoT.Underlying().(*types.Pointer); ok {
